@@ -25,6 +25,9 @@ def make_input(rng, k):
         # process-global machinery are exercised); some carry a zone abbreviation dateutil does not know
         zoned = rng.random() < 0.5
         times = ["10:00", "23:59:59", "07:05", "12:00:00.5"] + (["10:00 EST", "12:30 PST", "08:15 CEST"] if zoned else [])
+        if rng.random() < 0.4:
+            # strings on which dateutil's own arithmetic fails (29+ digit fraction, huge offsets): parsed as plain str
+            times += ["12:" + "4815162342" * 4, "10:30:" + "9" * 30, "1:2:3.4e999"]
         dates = ["2020-05-06", "1999-12-31", "2018-01-02"]
         samples = [{"at": rng.choice(times), "on": rng.choice(dates), "slots": [rng.choice(times) for _ in range(rng.randint(2, 6))],
                     "days": [rng.choice(dates) for _ in range(rng.randint(2, 6))], f"n{k}": j} for j in range(rng.randint(3, 8))]
@@ -59,7 +62,13 @@ def gen_cases_for(seed_, n):
         for k in range(nthreads):
             inp, flat = make_input(rng, k)
             inputs.append(inp)
-            if nthreads == 1 and i % 10 == 5:
+            if i % 6 == 1:
+                # the pipeline as the Cli class runs it, writing -o FILE into a directory shared by the threads of this case
+                extra = ["--merge", "exact"] if inp["merge"] == [["exact"]] else []
+                if inp["registry"] == list(gen.STR_TYPES):
+                    extra += ["--datetime"]
+                ops.append({"op": "cli", "input": k, "fw": rng.choice(FWS), "flat": True, "extra": extra, "outname": f"models_{k}.py"})
+            elif nthreads == 1 and i % 10 == 5:
                 # per-model rendering (GeneratorClass(model).generate()) from a thread that never ran generate_code
                 ops.append({"op": "direct", "input": k, "fw": rng.choice(FWS), "flat": flat})
             elif nthreads > 1 and rng.random() < 0.15:
@@ -131,6 +140,12 @@ def run_case(case):
         solo.append(ref)
     out = [None] * n
     win = [None] * n
+    import shutil
+    import tempfile
+    shared_dir = None
+    if any(op["op"] == "cli" for op in ops):
+        shared_dir = tempfile.mkdtemp(prefix="j2m_c15_")
+        ops = [dict(op, outdir=shared_dir) if op["op"] == "cli" else op for op in ops]
     inj = YieldInjector(case["rate"], case["sched_seed"])
     barrier = threading.Barrier(n) if n > 1 else None
     events = []
@@ -158,7 +173,8 @@ def run_case(case):
         except BaseException as e:
             out[k] = {"raised": f"thread harness: {type(e).__name__}: {e}"}
 
-    driver.generate_code = timed_generate_code
+    import json_to_models.cli as jcli
+    driver.generate_code = jcli.generate_code = timed_generate_code
     try:
         with inj:
             threads = [threading.Thread(target=work, args=(k,), daemon=True) for k in range(n)]
@@ -169,7 +185,9 @@ def run_case(case):
                 t.join(max(0.1, deadline - time.time()))
             alive = [t for t in threads if t.is_alive()]
     finally:
-        driver.generate_code = orig_generate_code
+        driver.generate_code = jcli.generate_code = orig_generate_code
+        if shared_dir:
+            shutil.rmtree(shared_dir, ignore_errors=True)
     if alive:
         return {"status": "inconclusive", "why": f"{len(alive)} threads did not finish within the bound", "witnesses": [], "counters": {}}
     wit = []
@@ -190,7 +208,7 @@ def run_case(case):
     overlaps = sum(1 for i, a in enumerate(ws) for b in ws[i + 1:] if b[0] < a[1])
     sig = tuple((k, kind) for _t, k, kind in sorted(events))
     cnt = {"threads_run": n, "schedules": 1, "overlapping_render_windows": overlaps, "yields_injected": inj.injected,
-           "single_thread_runs": int(n == 1), "render_windows": len(ws)}
+           "single_thread_runs": int(n == 1), "render_windows": len(ws), "cli_pipelines_with_output_file": sum(1 for op in ops if op["op"] == "cli")}
     return {"status": "violated" if wit else "held", "witnesses": wit[:4], "counters": cnt, "sig": digest(sig),
             "nontrivial": n == 1 or overlaps > 0, "digest": digest(case)}
 
@@ -200,7 +218,7 @@ def main():
     v = Verdict(PROP, "exploration",
                 "schedules: 1 in 5 a single pipeline in a fresh worker thread; otherwise 2-8 threads with independent inputs (nested layout "
                 "with a shared child model -> non-empty, per-thread path-injection map; non-ASCII keys with differing unicode option; random "
-                "inputs), barrier start, switch interval 1us, seeded sleep(0) injected on 1-8% of LINE events inside json_to_models. Oracle: "
+                "inputs; 1 case in 6: every thread runs the Cli class with -o FILE into one directory shared by the threads), barrier start, switch interval 1us, seeded sleep(0) injected on 1-8% of LINE events inside json_to_models. Oracle: "
                 "per thread output == solo output from a pristine process. The driver timestamps each thread's generate_code window; "
                 "non-trivial = single-thread run, or a schedule in which >=2 render windows actually overlapped",
                 ["schedules cannot be enumerated; evidence reports overlapping windows and distinct interleaving signatures observed"])
